@@ -597,6 +597,111 @@ impl Check for C12Preset {
     }
 }
 
+// ---------------------------------------------------------------- the chain of parents, at depth
+
+/// D nested `(map .sub ..)` bodies, optionally an n-stage pipe in the innermost one and a
+/// binding around the last expression, which lists `^`x k `.tag` for k = 0 .. D + n + 4. Every
+/// level carries its own tag, so the list must name, in order, the pipe's earlier stage values,
+/// then every enclosing level from the innermost to the top-level input (what lies beyond is not
+/// documented and not compared). (The
+/// pipe makes its own input visible twice - an artefact the documentation neither promises
+/// nor excludes - so consecutive repetitions are folded before comparing.)
+#[derive(Clone, Debug, Serialize, Deserialize)]
+pub struct CaseDeep {
+    pub depth: u8,
+    /// 0 = no pipe; n >= 2 = pipe with n stages, the last of which is the list
+    pub stages: u8,
+    /// 0 none, 1 (set "v" 1 ..), 2 (define "m" . ..), 3 both
+    pub wrap: u8,
+}
+
+pub struct C12Deep;
+impl Check for C12Deep {
+    type Case = CaseDeep;
+    fn name(&self) -> &'static str {
+        "C12.deep_parents"
+    }
+    fn cases(&self, tier: Tier) -> u64 {
+        tier.pick(600, 6_000)
+    }
+    fn strategy(&self, t: Tier) -> BoxedStrategy<CaseDeep> {
+        let max_d: u8 = t.pick(40, 120);
+        (prop_oneof![3 => 1u8..12, 2 => 12u8..24, 1 => 24u8..max_d], prop_oneof![Just(0u8), Just(2u8), Just(3u8), Just(4u8), Just(6u8)], 0u8..4).prop_map(|(depth, stages, wrap)| CaseDeep { depth, stages, wrap }).boxed()
+    }
+    fn check(&self, c: &CaseDeep) -> CaseResult {
+        let d = c.depth.max(1) as usize;
+        let n = c.stages as usize;
+        // input: {"tag":"top","sub":[{"tag":"L1","sub":[{"tag":"L2",...}]}]}
+        let mut input = format!("{{\"tag\":\"L{}\",\"sub\":[]}}", d);
+        for i in (1..d).rev() {
+            input = format!("{{\"tag\":\"L{}\",\"sub\":[{}]}}", i, input);
+        }
+        input = format!("{{\"tag\":\"top\",\"sub\":[{}]}}", input);
+        let k_max = d + n + 4;
+        let items: Vec<String> = (0..=k_max).map(|k| if k == 0 { "(default .tag \"none\")".to_string() } else { format!("(default {}.tag \"none\")", "^".repeat(k)) }).collect();
+        let mut last = format!("(push [] {})", items.join(" "));
+        if c.wrap & 1 == 1 {
+            last = format!("(set \"v\" 1 {})", last);
+        }
+        if c.wrap & 2 == 2 {
+            last = format!("(define \"m\" . {})", last);
+        }
+        let mut body = if n >= 2 {
+            let stages: Vec<String> = (1..n).map(|i| format!("(put {{}} \"tag\" (concat .tag \"p{}\"))", i)).collect();
+            format!("(| {} {})", stages.join(" "), last)
+        } else {
+            last
+        };
+        for _ in 0..d {
+            body = format!("(map .sub {})", body);
+        }
+        let args = vec![format!("--select={} = x", body)];
+        let o = run(&args, input.as_bytes());
+        if !o.res.is_ok() {
+            return CaseResult::Fail(format!("run failed: {} (depth {}, {} stages)", o.res.short(), d, n));
+        }
+        let rows = match rows_of(&o) {
+            Ok(r) => r,
+            Err(e) => return CaseResult::Fail(e),
+        };
+        // unwrap the D singleton lists
+        let mut v = match rows.first().and_then(|r| r.get("x").cloned()) {
+            Some(v) => v,
+            None => return CaseResult::Fail(format!("the expression gave nothing (depth {}, {} stages, wrap {}): {}", d, n, c.wrap, trunc(&body, 300))),
+        };
+        for _ in 0..d {
+            v = match v {
+                RVal::Arr(mut a) if a.len() == 1 => a.remove(0),
+                other => return CaseResult::Fail(format!("expected {} nested one-element lists, found {} (depth {}, {} stages)", d, trunc(&other.to_json(), 200), d, n)),
+            };
+        }
+        let RVal::Arr(list) = v else { return CaseResult::Fail("the innermost value is not the list".into()) };
+        let mut got: Vec<String> = list.iter().map(|x| if let RVal::Str(s) = x { s.clone() } else { x.to_json() }).collect();
+        got.dedup();
+        let mut exp: Vec<String> = Vec::new();
+        if n >= 2 {
+            let mut t = format!("L{}", d);
+            let mut vals = Vec::new();
+            for i in 1..n {
+                t = format!("{}p{}", t, i);
+                vals.push(t.clone());
+            }
+            exp.extend(vals.into_iter().rev());
+        }
+        for i in (1..=d).rev() {
+            exp.push(format!("L{}", i));
+        }
+        exp.push("top".into());
+        // what a `^` beyond the top-level input refers to is not documented: only the chain
+        // up to and including the top-level input is compared
+        got.truncate(exp.len());
+        if got != exp {
+            return CaseResult::Fail(format!("the chain of parents seen at depth {} ({} pipe stages, wrap {}) is {:?}, expected {:?} (consecutive repetitions folded)", d, n, c.wrap, got, exp));
+        }
+        CaseResult::Pass(Info::new(d >= 2).class_if(n >= 2, "inside_a_pipe").class_if(c.wrap != 0, "under_a_binding").class_if(d > 16, "deeper_than_16").class_if(d > 32, "deeper_than_32").obs(json!({"depth": d, "stages": n, "chain": got.len()})))
+    }
+}
+
 // ---------------------------------------------------------------- --set values are closed
 
 /// `--set n=v` binds n to the value of v, and v sees nothing: not the input, and not the
@@ -677,8 +782,10 @@ pub fn run_all(ctx: &mut Ctx) {
     C12SetValue.run(ctx);
     ctx.rule.push_str(". (preset_value) --set a=A (or @a=A) next to --set b=E(:a) for seven closed templates E: b must be bound as with a name that is never bound, in both option orders");
     C12PresetValue.run(ctx);
+    ctx.rule.push_str(". (deep_parents) 1..40 (120 thorough) nested map bodies, optionally a 2..6-stage pipe in the innermost one and set/define around the last expression: the values of . ^ ^^ ... must name the pipe's earlier stage values, then every enclosing level up to the top-level input");
+    C12Deep.run(ctx);
 }
 
 pub fn checks() -> Vec<Box<dyn DynCheck>> {
-    vec![Box::new(C12Subst), Box::new(C12Pipe), Box::new(C12Selects), Box::new(C12Preset), Box::new(C12SetValue), Box::new(C12PresetValue)]
+    vec![Box::new(C12Subst), Box::new(C12Pipe), Box::new(C12Selects), Box::new(C12Preset), Box::new(C12SetValue), Box::new(C12PresetValue), Box::new(C12Deep)]
 }
